@@ -226,6 +226,10 @@ def gen_field(cs, gen, q, depth=0):
                 gen.feat('fstring_nested_spec')
             elif k == 1:
                 s += cs.pick(['>10', '.3f', 'x', '^', ' ', '<5', ':', '!r', '08.3', ',', '%Y-%m', 'é', '+', '#x', '!', '=10', '=^5', '=', '>=3', '!=', ':=1'])
+            elif k == 2 and cs.bool(90) and not gen.excluded('C07-F1'):
+                # an escape sequence in the format spec (decoded unless the literal is raw; listed finding C07-F1)
+                s += cs.pick(['\\n', '\\x41', '\\\\', '\\t', '\\u00e9', '\\101'])
+                gen.feat('fstring_spec_escape')
             else:
                 s += cs.pick(['d', '5', '.2', 's', ''])
     return s + '}'
